@@ -307,15 +307,16 @@ def Ops.un : PyUnOp → Expr → OpR
 
 /-! ### smart constructors -/
 
-/-- `flattened_sum(terms)`: queue discipline as coded (children are appended at the END of the
-queue).  `fuel` bounds the loop; `Expr.sizeL terms + 1` always suffices. -/
+/-- `flattened_sum(terms)`: queue discipline as coded (`queue[0:0] = item.children`: the children
+of a nested sum are spliced IN PLACE, at the FRONT of the queue, so the order of the terms is
+kept).  `fuel` bounds the loop; `Expr.sizeL terms + terms.length + 1` always suffices. -/
 def flattenedSumLoop : Nat → List Expr → List Expr → List Expr
   | 0, _, done => done
   | _ + 1, [], done => done
   | fuel + 1, item :: queue, done =>
     if item.isZero then flattenedSumLoop fuel queue done
     else match item with
-      | .nary .sum cs => flattenedSumLoop fuel (queue ++ cs) done
+      | .nary .sum cs => flattenedSumLoop fuel (cs ++ queue) done
       | _ => flattenedSumLoop fuel queue (done ++ [item])
 
 def flattenedSum (terms : List Expr) : Expr :=
@@ -332,7 +333,7 @@ def flattenedProductLoop : Nat → List Expr → List Expr → Option (List Expr
     if item.isZero then Option.none
     else if item.isOne then flattenedProductLoop fuel queue done
     else match item with
-      | .nary .prod cs => flattenedProductLoop fuel (queue ++ cs) done
+      | .nary .prod cs => flattenedProductLoop fuel (cs ++ queue) done
       | _ => flattenedProductLoop fuel queue (done ++ [item])
 
 def flattenedProduct (terms : List Expr) : Expr :=
